@@ -35,6 +35,9 @@ pub fn token(src: usize, pos: usize, len: usize) -> Vec<u8> {
 pub enum Mf {
     Concat,
     First,
+    /// values joined with a ',' separator: associative, returns a lone value unchanged, and
+    /// (unlike concatenation) reveals the position of empty values
+    Join,
 }
 
 /// Merge function that records every call it receives.
@@ -68,6 +71,20 @@ impl MergeFunction for Recorder {
                 }
             }
             Mf::First => Ok(values[0].clone()),
+            Mf::Join => {
+                if values.len() == 1 {
+                    Ok(values[0].clone())
+                } else {
+                    let mut v = Vec::new();
+                    for (i, x) in values.iter().enumerate() {
+                        if i > 0 {
+                            v.push(b',');
+                        }
+                        v.extend_from_slice(x);
+                    }
+                    Ok(Cow::Owned(v))
+                }
+            }
         }
     }
 }
@@ -134,6 +151,7 @@ impl Sources {
                         return vec![[h[0].0 as i64, h[0].1 as i64]];
                     }
                 }
+                Mf::Join => {}
             }
         }
         // greedy token parse
